@@ -104,7 +104,7 @@ def check_graph(ctx, res, drv, adj, rep, backend, SC, DC, pending):
     from harness.c01 import Script
 
     for name, C in (("stab", SC), ("dm", DC)):
-        if name == "dm" and ne + np_ > 8:
+        if name == "dm" and ne + np_ > (6 if ctx.quick else 8):
             continue
         for det in (0, 1, "p"):
             comp = C()
@@ -130,6 +130,8 @@ def check_graph(ctx, res, drv, adj, rep, backend, SC, DC, pending):
             if not ok:
                 res.violation(f"solve:wrong-state:{name}", f"{name} backend (setting {det}): photons are not in the target graph state with emitters in |0>", input=inp)
     pending.append((f"circ.check ne={ne} np={np_} a={tu.bits(adj) or '-'} ops={inp['ops'] or '-'} max=256", inp))
+    # exact correspondence with the solver model (per-wire operation sequences)
+    pending.append((f"solver.trs n={n} x={tu.bits(np.eye(n, dtype=int))} z={tu.bits(adj)} r={'0' * n}", dict(inp, _kind="model", _toks=toks)))
 
 
 def _dense_target(adj, ne):
@@ -145,8 +147,28 @@ def _dense_target(adj, ne):
     return rho
 
 
+def per_wire(toks):
+    """token list in some topological order -> {register: [tokens touching it, in order]}"""
+    wires = {}
+    for t in toks:
+        parts = t.split(":")
+        regs = [p for p in parts[1:] if p and p[0] in "ep" and p[1:].isdigit()] if parts[0] != "W" else [parts[2]]
+        for r in regs:
+            wires.setdefault(r, []).append(t)
+    return wires
+
+
 def flush(res, drv, pending):
     for rep, (ln, inp) in zip(drv.batch([p[0] for p in pending]), pending):
+        if inp.get("_kind") == "model":
+            clean = {k: v for k, v in inp.items() if not k.startswith("_")}
+            if rep["_status"] != "ok":
+                res.exact_break("solver.trs:error-class", input=clean, impl="ok", model=rep["_raw"][:200])
+                continue
+            mtoks = [] if rep["ops"] == "-" else rep["ops"].split(",")
+            if int(rep["ne"]) != clean["ne"] or per_wire(mtoks) != per_wire(inp["_toks"]):
+                res.exact_break("solver.trs", input=clean, impl=",".join(inp["_toks"])[:1500], model=rep["_raw"][:1500])
+            continue
         if rep["_status"] != "ok":
             res.violation("solve:validator-error", "the verified validator could not run the returned circuit", input=inp, model=rep["_raw"][:200])
             continue
